@@ -169,6 +169,8 @@ func (m *c12mon) Next(g *gw.GW) []string {
 		// this one announces; the client of these histories meets the period it announced last
 		a = append(a, with("CONNECT(keep-alive 10)", gw.Connect("c1", 10, false, false)))
 		a = append(a, with("DISCONNECT(6) again", gw.Disconnect(6)), with("DISCONNECT(10) again", gw.Disconnect(10)))
+		// broker-bound traffic of the sleeping client itself (forwarded by the gateway) must not make the pinger skip
+		a = append(a, with("PUBLISH(q0,xy) while asleep", gw.Publish(2, gw.ShortID("xy"), 0, 0, false, false, "x")))
 	}
 	return a
 }
@@ -201,7 +203,7 @@ func TestC12(t *testing.T) {
 	}
 	rep := explore.NewReport("C12", "model_checking")
 	gw.BFSCheck(rep, specs, gw.BFSOpts{Test: "TestC12"}, 240, 1500)
-	rep.Coverage["rule"] = "BFS over timed histories on a 1 s grid (horizon 16 s, thorough 28 s; keep-alive 4 s): at every tick the client does nothing, sends PINGREQ, PUBLISH q0, DISCONNECT(2|6|10), a wake-up PINGREQ, a wake-up CONNECT (same keep-alive, or announcing 10 s, which then is the client's obligation while active) or a renewed DISCONNECT(6|10); the broker answers CONNECT and PINGREQ at once; histories in which the client breaks its own obligation (a packet within every keep-alive while active, a wake-up within every announced sleep duration) are pruned; at every tick and at every broker-bound packet the time since the previous broker-bound packet must be <= 6 s; state key uses time offsets, not absolute time"
+	rep.Coverage["rule"] = "BFS over timed histories on a 1 s grid (horizon 16 s, thorough 28 s; keep-alive 4 s): at every tick the client does nothing, sends PINGREQ, PUBLISH q0, DISCONNECT(2|6|10), a wake-up PINGREQ, a wake-up CONNECT (same keep-alive, or announcing 10 s, which then is the client's obligation while active) a renewed DISCONNECT(6|10) or, while asleep, a QoS 0 PUBLISH of its own; the broker answers CONNECT and PINGREQ at once; histories in which the client breaks its own obligation (a packet within every keep-alive while active, a wake-up within every announced sleep duration) are pruned; at every tick and at every broker-bound packet the time since the previous broker-bound packet must be <= 6 s; state key uses time offsets, not absolute time"
 	rep.Assumptions = []string{"default schedule; virtual time on a 1 s grid; after a wake-up the client sleeps again for the duration it announced"}
 	rep.Finish()
 }
